@@ -172,6 +172,7 @@ struct QAlloc {
     template<class U> QAlloc(const QAlloc<U>&) {}
     template<class U> struct rebind { using other = QAlloc<U>; };
     T* allocate(size_t n) {
+        fault_point(F_ALLOC);          // allocation failure (only when the case's fault plan selects this kind)
         QLedger& L = ledger();
         size_t bytes = n * sizeof(T);
         void* p = std::aligned_alloc(alignof(T) < 16 ? 16 : alignof(T), (bytes + 15) / 16 * 16);
@@ -234,6 +235,21 @@ struct QAlloc {
     }
     template<class U> bool operator==(const QAlloc<U>&) const { return true; }
     template<class U> bool operator!=(const QAlloc<U>&) const { return false; }
+};
+
+// Stateful variant: not "always equal", carries a tag (libraries select different code paths on allocator traits).
+template<class T>
+struct QAllocS : QAlloc<T> {
+    using value_type = T;
+    using is_always_equal = std::false_type;
+    using propagate_on_container_move_assignment = std::false_type;
+    int tag = 7;
+    QAllocS() = default;
+    explicit QAllocS(int t) : tag(t) {}
+    template<class U> QAllocS(const QAllocS<U>& o) : tag(o.tag) {}
+    template<class U> struct rebind { using other = QAllocS<U>; };
+    template<class U> bool operator==(const QAllocS<U>& o) const { return tag == o.tag; }
+    template<class U> bool operator!=(const QAllocS<U>& o) const { return tag != o.tag; }
 };
 
 inline void unpoison_ledger() {
